@@ -52,7 +52,8 @@ PAIRS = [
     (['RotatedPlanarCode(3,3)', 'RotatedPlanarCode(3,5)', 'RotatedPlanarCode(4,4)'],
      ['RotatedPlanarMPSDecoder(4)', 'RotatedPlanarMPSDecoder()', 'RotatedPlanarRMPSDecoder(4)', 'RotatedPlanarRMPSDecoder(None, "a")',
       'RotatedPlanarSMWPMDecoder()', 'RotatedPlanarSMWPMDecoder(3)'],
-     ['DepolarizingErrorModel()', 'BiasedDepolarizingErrorModel(10, "Y")', 'BiasedDepolarizingErrorModel(3, "Y")'], False),
+     ['DepolarizingErrorModel()', 'BiasedDepolarizingErrorModel(10, "Y")', 'BiasedDepolarizingErrorModel(3, "Y")',
+      'BiasedDepolarizingErrorModel(0.5, "Y")', 'BiasedDepolarizingErrorModel(1000, "Y")'], False),
     (['RotatedToricCode(2,2)', 'RotatedToricCode(4,4)', 'RotatedToricCode(2,4)'],
      ['RotatedToricSMWPMDecoder()', 'RotatedToricSMWPMDecoder(False, 3)'],
      ['DepolarizingErrorModel()', 'BiasedDepolarizingErrorModel(10, "Y")'], False),
@@ -111,6 +112,10 @@ def run(ctx):
         if expr in shared and rng.random() < 0.75:
             return shared[expr]
         o = eval(expr, dict(ns))
+        if 'ErrorModel' in expr and rng.random() < 0.5:
+            # a short-lived collaborator built inline by the caller and dropped after the call: nothing keeps it alive,
+            # so a later object may live at the same address (state keyed on id() of a collaborator must not survive it)
+            return o
         shared[expr] = o
         return o
 
@@ -210,6 +215,49 @@ def run(ctx):
                        'fresh_reversed': rev[i]['result'][:300], 'alone': alone[0]['result'][:300],
                        'preceding_ops': ops[max(0, i - 5):i]})
     ctx.extra['ops_compared_fresh_interpreter'] = nops
+
+    # ---- transient collaborators: one decoder object kept by the caller, error models built inline for a single
+    # call and dropped (so a later model may live at the address of a dead one), parameters changing from call to call
+    TRANSIENT = [('RotatedPlanarCode(7,7)', 'RotatedPlanarSMWPMDecoder()'), ('RotatedPlanarCode(5,5)', 'RotatedPlanarSMWPMDecoder()'),
+                 ('RotatedPlanarCode(5,5)', 'RotatedPlanarMPSDecoder(4)'), ('PlanarCode(4,4)', 'PlanarMPSDecoder(4)'),
+                 ('PlanarCode(4,4)', 'PlanarCMWPMDecoder()'), ('RotatedToricCode(4,4)', 'RotatedToricSMWPMDecoder()')]
+    T_EMS = ['BiasedDepolarizingErrorModel(0.5, "Y")', 'BiasedDepolarizingErrorModel(1000, "Y")', 'DepolarizingErrorModel()',
+             'BiasedDepolarizingErrorModel(10, "Y")', 'BiasedDepolarizingErrorModel(100, "Z")', 'BitFlipErrorModel()']
+    n_tr = 0
+    for cexpr, dexpr in TRANSIENT:
+        kept = {}
+
+        def get_kept(expr):
+            if 'ErrorModel' in expr:
+                return eval(expr, dict(ns))          # never retained
+            if expr not in kept:
+                kept[expr] = eval(expr, dict(ns))
+            return kept[expr]
+        code = get_kept(cexpr)
+        n = code.n_k_d[0]
+        hist = []
+        bad = False
+        for j in range(ctx.pick(16, 80)):
+            e = np.zeros(2 * n, dtype=int)
+            for q in rng.sample(range(n), rng.randint(1, max(2, n // 6))):
+                if rng.random() < 0.7:
+                    e[q] = e[n + q] = 1
+                else:
+                    e[q + n * rng.randint(0, 1)] = 1
+            op = {'op': 'decode', 'code': cexpr, 'dec': dexpr, 'em': T_EMS[j % 2] if j < 8 else rng.choice(T_EMS),
+                  'p': rng.choice([0.1, 0.2]), 'error': W.bitstr(e)}
+            r1 = W.execute(op, get_kept)
+            r2 = W.execute(op, lambda expr: eval(expr, dict(ns)))
+            n_tr += 1
+            ctx.count(json.dumps(op, sort_keys=True) + '#transient', j > 0, 'decode-transient-em', None)
+            if r1['result'] != r2['result'] and not bad:
+                bad = True
+                ctx.violation('history-dependence', 'a decoder object kept across calls, each call with an error model built inline and '
+                              'dropped afterwards, decodes differently from a fresh decoder with the same arguments',
+                              {'op': op, 'index_in_history': j, 'in_history': r1['result'][:300], 'fresh': r2['result'][:300],
+                               'preceding_ops': hist[-6:], 'note': 'error models are not retained between calls; decoder and code are'})
+            hist.append(op)
+    ctx.extra['transient_collaborator_ops'] = n_tr
 
     # ---- a sample alone, one interpreter per operation ----
     sample = rng.sample(range(nops), ctx.pick(16, 96))
